@@ -310,7 +310,7 @@ B('C09', 'Inst copy forgets variable instantiations', 'kernel/term.py',
   '        res.var_inst = copy(self.var_inst)\n', '', 'C09.N2', 'Inst.__copy__')
 B('C09', 'matcher overwrites an existing binding', MAT,
   '                inst[pat.head.name] = t\n            else:\n                if inst[pat.head.name] != t:\n                    raise MatchException(trace)\n        elif pat.is_comb() and pat.head.is_svar():',
-  '                inst[pat.head.name] = t\n            else:\n                inst[pat.head.name] = t\n        elif pat.is_comb() and pat.head.is_svar():', 'C09.N3', 'bind(pat.head.name)')
+  '                inst[pat.head.name] = t\n            else:\n                inst[pat.head.name] = t\n        elif pat.is_comb() and pat.head.is_svar():', 'C09.N3', 'bind(pat.name)')
 N('C09', 'copy on entry as conditional expression', MAT,
   '    if inst is None:\n        inst = Inst()\n    else:\n        inst = copy(inst)  # do not modify input\n', '    inst = Inst() if inst is None else copy(inst)\n')
 
@@ -1154,3 +1154,44 @@ B('C11', 'datatype constructor recorded without comparing names and argument typ
   "                if len(constr['args']) != len(argT):\n                    raise ItemException(\"Datatype %s: %s has %d arguments, %d names are given\" % (\n                        self.name, constr['name'], len(argT), len(constr['args'])))\n", "", 'C11.D11', 'names-match-argument-types')
 B('C16', 'one-term constraint with coefficient zero dropped', 'prover/simplex.py',
   "                elif lower_bound > 0: # 0 * x >= b with b > 0 does not hold\n                    self.false_ineq = ineq\n", "", 'C16.O11', 'coefficient-cases')
+
+# ------------------------------------------------------------------------------------------- rules of round 8
+B('C11', 'own-definition test compares with the name of the theorem', 'server/items.py',
+  "            if any(c.name == self.name and not types_disjoint(c.T, self.type)", "            if any(c.name == self.cname and not types_disjoint(c.T, self.type)", 'C11.D12', '')
+B('C13', 'exists_elim counts the lines to add from the names given', 'server/method.py',
+  "        state.add_line_before(id, len(vars) + 1)", "        state.add_line_before(id, len(names) + 1)", 'C13.A15', '')
+B('C16', 'sub-problems inherit the constraints on other variables only', 'prover/simplex.py',
+  "                s1.add_ineqs(ineq1, *node.simplex.original)", "                s1.add_ineqs(ineq1, *[q for q in node.simplex.original if q.jars != ineq1.jars])", 'C16.O12', '')
+B('C17', 'second half of the explanation path in forward order', 'prover/congc.py',
+  "        for i in reversed(range(len_t-pos)):", "        for i in range(len_t-pos):", 'C17.G10', '')
+B('C18', 'argument pairs of eq_congruent collapsed through a dictionary', VM,
+  "        concl_eq = [(i, j) for i, j in zip(concl.lhs.strip_comb()[1], concl.rhs.strip_comb()[1])]", "        concl_eq = list(dict(zip(concl.lhs.strip_comb()[1], concl.rhs.strip_comb()[1])).items())", 'C18.R26', '')
+B('C09', 'pattern argument looked up with itself as default', 'logic/matcher.py',
+  "                            Tlist.append(inst[v.name].get_type())", "                            Tlist.append(inst.get(v.name, v).get_type())", 'C09.N14', '')
+B('C08', 'function type joined with its expected form without unification', 'syntax/infertype.py',
+  "                    unify(funT, TFun(argT, resT))", "                    union(funT, TFun(argT, resT))", 'C08.U11', '')
+B('C10', 'beta normalisation stops after contracting a redex with a non-abstraction argument', 'logic/conv.py',
+  "                    pt2 = ProofTerm.beta_conv(pt.rhs)\n                    pt3 = rec(pt2.rhs)", "                    pt2 = ProofTerm.beta_conv(pt.rhs)\n                    if not t.arg.is_abs():\n                        return pt.transitive(pt2)\n                    pt3 = rec(pt2.rhs)", 'C10.V12', '')
+B('C14', 'forward step returns without a line when the fact is already there', 'server/method.py',
+  "        state.add_line_before(id, 1)\n        if inst:\n            state.set_line(id, 'apply_theorem_for'", "        if state.find_goal(res_th, id) is not None:\n            return\n        state.add_line_before(id, 1)\n        if inst:\n            state.set_line(id, 'apply_theorem_for'", 'C14.S12', '')
+B('C07', 'the binder constant of a definite description given the type of a quantifier', 'syntax/parser.py',
+  "        the_t = Const(\"The\", None)\n        return the_t(Abs(str(var_name), T,", "        the_t = Const(\"The\", TFun(TFun(T, BoolType), BoolType))\n        return the_t(Abs(str(var_name), T,", 'C07.W9', '')
+N('C07', 'the binder constant of a typed quantifier given its declared type', 'syntax/parser.py',
+  "        all_t = Const(\"all\", None)\n        return all_t(Abs(str(var_name), T,", "        all_t = Const(\"all\", TFun(TFun(T, BoolType), BoolType))\n        return all_t(Abs(str(var_name), T,")
+B('C20', 'variable names read as numbers in base 26', 'imperative/parser.py',
+  "    return ord(s) - ord(\"a\")", "    n = 0\n    for c in s:\n        n = 26 * n + (ord(c) - ord(\"a\"))\n    return n", 'C20.P10', '')
+B('C19', 'constant split off on the left of a sum or a difference alike', 'integral/rules.py',
+  "        elif e.args[0].is_uminus() and e.args[1].is_const():\n            # (-a) ^ n", "        elif (e.args[1].is_plus() or e.args[1].is_minus()) and e.args[0].is_const() and e.args[1].args[0].is_const():\n            return (e.args[0] ^ e.args[1].args[0]) * (e.args[0] ^ e.args[1].args[1])\n        elif e.args[0].is_uminus() and e.args[1].is_const():\n            # (-a) ^ n", 'C19.E11', '')
+N('C17', 'explanation path collected by comprehensions, second half reversed', 'prover/congc.py',
+  "        cur_path = []\n        for i in range(1, len_s-pos+1):\n            _, eq = s_path[i]\n            cur_path.append(eq)\n        for i in reversed(range(len_t-pos)):\n            _, eq = t_path[i+1]\n            cur_path.append(eq)",
+  "        cur_path = [eq for _, eq in s_path[1:len_s-pos+1]]\n        cur_path += [eq for _, eq in reversed(t_path[1:len_t-pos+1])]")
+N('C13', 'exists_elim names the number of opened variables', 'server/method.py',
+  "        state.add_line_before(id, len(vars) + 1)", "        n_new = len(vars)\n        state.add_line_before(id, n_new + 1)")
+N('C19', 'constant split off on the left of a sum only', 'integral/rules.py',
+  "        elif e.args[0].is_uminus() and e.args[1].is_const():\n            # (-a) ^ n", "        elif e.args[1].is_plus() and e.args[0].is_const() and e.args[1].args[0].is_const():\n            return (e.args[0] ^ e.args[1].args[0]) * (e.args[0] ^ e.args[1].args[1])\n        elif e.args[0].is_uminus() and e.args[1].is_const():\n            # (-a) ^ n")
+N('C20', 'str_to_nat names the code of the first letter', 'imperative/parser.py',
+  "    return ord(s) - ord(\"a\")", "    base = ord(\"a\")\n    return ord(s) - base")
+N('C16', 'sub-problems get a copy of the whole list', 'prover/simplex.py',
+  "                s1.add_ineqs(ineq1, *node.simplex.original)", "                s1.add_ineqs(ineq1, *list(node.simplex.original))")
+N('C08', 'expected function type named before unification', 'syntax/infertype.py',
+  "                    unify(funT, TFun(argT, resT))", "                    expected = TFun(argT, resT)\n                    unify(funT, expected)")
